@@ -110,7 +110,7 @@ def run_case(case):
         outs.append("i-format")
     # (ii) ref -> impl
     for vn, kw in VARIANTS.items():
-        if XFAIL[0]:
+        if XFAIL[0] or (case.get("light") and vn != "current"):
             break  # direction (ii) encodes what was accepted; refused-write histories are a writer-side matter
         if vn in ("repeatheader",) and len(expected) < 2:
             continue
